@@ -220,14 +220,22 @@ Definition cast_cell (d : dtype) (c : cell) : castres :=
   | DInt => match c with
             | Null => CastRaise                                          (* cannot convert NaN to integer *)
             | Bv b => CastOk (Iv (if b then 1 else 0)) | Iv z => CastOk (Iv z) | Fv z => CastOk (Iv (Z.quot z 2))
+            | Sv _ => CastRaise                                          (* invalid literal for int() *)
             | _ => CastUnmodelled
             end
   | DFloat => match c with
               | Null => CastOk Null | Bv b => CastOk (Fv (if b then 2 else 0)) | Iv z => CastOk (Fv (2 * f64_of_int z)) | Fv z => CastOk (Fv z)
+              | Sv _ => CastRaise                                        (* could not convert string to float *)
               | _ => CastUnmodelled
               end
-  | DObj => match c with Sv _ | Tv _ => CastUnmodelled | _ => CastOk c end
-  | _ => CastUnmodelled
+  | DObj => CastOk c                                                     (* an object array holds anything *)
+  | DTime | DTimeNs =>                                                   (* whole days: the unit changes no value *)
+      match c with
+      | Tv z => CastOk (Tv z) | Null => CastOk Null
+      | Bv _ => CastRaise                                                (* <class 'bool'> is not convertible to datetime *)
+      | _ => CastUnmodelled                                              (* numbers become offsets from the epoch *)
+      end
+  | DStr => CastUnmodelled                                               (* str(value) of every cell *)
   end.
 Fixpoint cast_cells (d : dtype) (cs : list cell) : list cell + outcome :=
   match cs with
@@ -241,18 +249,28 @@ Fixpoint cast_cells (d : dtype) (cs : list cell) : list cell + outcome :=
       end
   end.
 Definition numeric (d : dtype) : bool := match d with DBool | DInt | DFloat | DObj => true | _ => false end.
+Definition is_time (d : dtype) : bool := match d with DTime | DTimeNs => true | _ => false end.
+Definition is_sv (c : cell) : bool := match c with Sv _ => true | _ => false end.
+Definition str_like (c : cell) : bool := match c with Sv _ | Null => true | _ => false end.
+Definition time_like (c : cell) : bool := match c with Tv _ | Null => true | _ => false end.
+(* the (column dtype, update dtype) pairs transcribed as coerce - write - cast the whole column *)
+Definition cast_family (dc du : dtype) : bool :=
+  (numeric dc && (numeric du || is_time du)) || (is_time dc && is_time du).
 
 (* new column for one update column: positional write into a copy, dtype kept or the update rejected; while simulants
-   are being added ANY dtype is accepted and the WHOLE column is cast to the update's dtype (finding F-L) *)
+   are being added ANY dtype is accepted and the WHOLE column is cast to the update's dtype (finding F-L).  Measured
+   (pandas 3.0.6): a str array refuses anything but strings and a datetime array anything but datetimes (TypeError);
+   strings do not go into a numeric array (ValueError); datetime64[us] <-> [ns] and object <-> anything are cast. *)
 Definition build_col (addingf : bool) (k : column) (idx : list Z) (u : ucol) : column + outcome :=
   if dtype_eqb (udt u) (cdt k) then inl (mkcol (cname k) (cdt k) (write_cells (cdt k) (ccells k) idx (ucells u)))
   else if negb addingf then inr (Fail WDtype)
   else match cdt k, udt u with
-       | DStr, _ => inr (Fail WDtype)                      (* str array refuses non-strings: TypeError *)
-       | DTime, DTimeNs => inr Unmodelled
-       | DTime, _ => inr (Fail WDtype)                     (* datetime array refuses non-datetimes: TypeError *)
+       | DStr, _ => if forallb str_like (ucells u) then inr Unmodelled else inr (Fail WDtype)
+       | DInt, DStr | DFloat, DStr => if existsb is_sv (ucells u) then inr (Fail WCast) else inr Unmodelled
        | dc, du =>
-           if numeric dc && numeric du then
+           if is_time dc && negb (is_time du) then
+             (if forallb time_like (ucells u) then inr Unmodelled else inr (Fail WDtype))
+           else if cast_family dc du then
              match cast_cells dc (ucells u) with           (* setitem coerces the new values to the array's dtype *)
              | inl vals =>
                  match cast_cells du (write_cells dc (ccells k) idx vals) with   (* .astype(update dtype), whole column *)
